@@ -31,6 +31,7 @@ type c05Obj struct {
 	Attrs  attrModel
 	Dims   []uint64
 	Target string
+	Stale  bool // resized and not written since: shape known, values not compared
 }
 
 func c05ExpectedRaw(d *c01DS) []byte {
@@ -80,7 +81,7 @@ func c05Run(c *ev.Ctx) {
 		groups = append(groups, p)
 	}
 	nds := r.Range(1, 4)
-	var dss []string
+	var dss, resizable []string
 	maxElems := uint64(c.Pick(600, 5000))
 	for i := 0; i < nds; i++ {
 		d := c01GenDataset(r, i, maxElems)
@@ -91,11 +92,21 @@ func c05Run(c *ev.Ctx) {
 		if len(groups) > 0 && r.Bool() {
 			d.Op.Path = groups[r.Intn(len(groups))] + d.Op.Path
 		}
-		if r.Chance(1, 6) && d.Op.Chunk != nil && d.Family == "numeric" {
+		if r.Chance(1, 3) && d.Op.Chunk != nil && d.Family == "numeric" {
+			// resizable: unlimited, a maximum equal to the extent, or a little above it
 			d.Op.MaxDims = make([]uint64, len(d.Op.Dims))
+			mode := r.Intn(3)
 			for j := range d.Op.MaxDims {
-				d.Op.MaxDims[j] = hx.Unlimited
+				switch mode {
+				case 0:
+					d.Op.MaxDims[j] = hx.Unlimited
+				case 1:
+					d.Op.MaxDims[j] = d.Op.Dims[j]
+				default:
+					d.Op.MaxDims[j] = d.Op.Dims[j] + uint64(r.Intn(4))
+				}
 			}
+			resizable = append(resizable, d.Op.Path)
 		}
 		dd := d
 		s.Ops = append(s.Ops, d.Op)
@@ -159,6 +170,32 @@ func c05Run(c *ev.Ctx) {
 		p := fmt.Sprintf("/hl%d", i)
 		s.Ops = append(s.Ops, hx.Op{K: "hardlink", Path: p, Target: t})
 	}
+	// resize histories: every resize is followed by a full write at the new shape
+	for _, p := range resizable {
+		if !r.Chance(2, 3) {
+			continue
+		}
+		m := model[p]
+		cur := append([]uint64(nil), m.DS.Op.Dims...)
+		for round := r.Range(1, 3); round > 0; round-- {
+			nd := append([]uint64(nil), cur...)
+			if !r.Chance(1, 4) {
+				for j := range nd {
+					hi := m.DS.Op.MaxDims[j]
+					if hi == hx.Unlimited {
+						hi = cur[j] + 5
+					}
+					nd[j] = uint64(r.Range(1, int(hi)))
+				}
+			}
+			if hx.NumElems(nd) > 20000 {
+				continue
+			}
+			cur = nd
+			v := hx.GenNumeric(r, "[]"+m.DS.Op.DT, int(hx.NumElems(nd)), 1+r.Intn(3))
+			s.Ops = append(s.Ops, hx.Op{K: "resize", Path: p, Dims: nd}, hx.Op{K: "write", Path: p, Data: &v})
+		}
+	}
 	// a dense group now and then
 	if len(dss) > 0 && r.Chance(1, 4) {
 		links := map[string]string{}
@@ -203,6 +240,19 @@ func c05Run(c *ev.Ctx) {
 		case "delattr":
 			if res.OK() {
 				delete(model[op.Path].Attrs, op.Name)
+			}
+		case "resize":
+			if m := model[op.Path]; m != nil && m.DS != nil && res.OK() {
+				m.DS.Op.Dims, m.Dims, m.Stale = op.Dims, op.Dims, true
+				c.Count("resizes", 1)
+			}
+		case "write":
+			if m := model[op.Path]; m != nil && m.DS != nil {
+				if res.OK() {
+					m.DS.Op.Data, m.Stale = op.Data, false
+				} else {
+					m.Stale = true
+				}
 			}
 		case "create_ds", "create_cmp", "group":
 			if !res.OK() {
@@ -356,6 +406,10 @@ func c05Run(c *ev.Ctx) {
 				c.Violation("decode-mismatch:shape:"+fam, wit(map[string]any{"path": p, "decoded": o.Space.Dims, "written": d.Op.Dims}))
 				continue
 			}
+			if src.Stale {
+				c.Count("datasets_resized_not_rewritten", 1)
+				continue
+			}
 			raw, rerr := tol.ReadData(o)
 			if rerr != nil {
 				var stored, computed uint32
@@ -455,7 +509,7 @@ func c05Run(c *ev.Ctx) {
 var C05 = &ev.Property{
 	ID:    "C05",
 	Level: "exploration",
-	Rule: "each case builds a file through the public API (superblock 0/2/3; 0-3 nested groups; 1-4 datasets from the C01 generator: all type families, contiguous/chunked/filtered, some resizable; attribute bursts that take some objects into dense storage plus deletes; hard links; sometimes a dense group) and hands the bytes to an independent spec-based decoder: strict decode (every deviation = issue key), tolerant decode + extent invariants (in file, below the superblock end-of-file address, pairwise disjoint), and comparison of the decoded tree, shapes, datatypes, raw dataset bytes and attribute bytes with what the history wrote. " +
+	Rule: "each case builds a file through the public API (superblock 0/2/3; 0-3 nested groups; 1-4 datasets from the C01 generator: all type families, contiguous/chunked/filtered, a third of the chunked numeric ones resizable with an unlimited maximum, a maximum equal to the extent or a little above it and then taken through 1-3 rounds of Resize + full Write; attribute bursts that take some objects into dense storage plus deletes; hard links; sometimes a dense group) and hands the bytes to an independent spec-based decoder: strict decode (every deviation = issue key), tolerant decode + extent invariants (in file, below the superblock end-of-file address, pairwise disjoint), and comparison of the decoded tree, shapes, datatypes, raw dataset bytes and attribute bytes with what the history wrote. " +
 		"distinct = (superblock, feature set, dataset/group counts, ops/5); every file is non-trivial.",
 	Assumptions: []string{
 		"the independent decoder (harness/zzverif/specdec) is the specification's stand-in: written from the format specification, sharing no code with the library, validated on the bundled reference corpus against h5dump output",
